@@ -44,6 +44,18 @@ def unquote : Str → Str
     go r
   | s => s
 
+/-- an argument is a token, or a quoted-string that ends with its closing quote and nothing after it -/
+def wellQuoted : Str → Bool
+  | '"' :: r =>
+    let rec go : Str → Bool
+      | [] => false
+      | ['"'] => true
+      | '"' :: _ => false
+      | '\\' :: _ :: r => go r
+      | _ :: r => go r
+    go r
+  | _ => true
+
 /-- directives of all Cache-Control field lines: (lower-case name, argument with quotes removed) -/
 def directives (h : Header) : List (Str × Option Str) :=
   (listMembers h sCacheControl).map fun m =>
@@ -173,6 +185,11 @@ def noCacheUnqualified (R : Reader) (h : Header) : Bool :=
 
 /-- field names listed by a qualified no-cache directive -/
 def noCacheFields (R : Reader) (h : Header) : List Str :=
+  -- (an argument that is not a well-formed quoted-string — unterminated, or with bytes after the closing quote — names
+  --  nothing that can be judged: the malformed-directive family; only the shrinker of bin/check ever produced one)
+  if (listMembers h sCacheControl).any (fun m => match cutAt '=' m with
+      | some (n, a) => lowerASCII (trimOWS n) = (str% "no-cache") && !wellQuoted (trimOWS a)
+      | none => false) then [] else
   match R.read h (str% "no-cache") with
   -- (the argument, once unquoted, is a list of field names — tokens: it is split at EVERY comma; a quote that
   --  was escaped inside the quoted-string is a byte of a bogus name, not the start of another quoted-string)
